@@ -18,11 +18,15 @@ Theorem C10_refuted_del_replace :
 Proof. exact refuted_del_replace. Qed.
 Print Assumptions C10_refuted_del_replace.
 
-Theorem C10_refuted_update_del :
-  ~ (forall ops, keys_ok ops = true -> forallb (fun o => negb (is_replace o)) ops = true ->
-       errs_agree ops -> saved_agrees ops).
-Proof. exact refuted_update_del. Qed.
-Print Assumptions C10_refuted_update_del.
+(** (finding C10-3 repaired) a history without Replace and without the "-"
+    byte in indexed fields whose calls all answered like the map — in particular
+    any Update of a saved row that changes indexed fields followed by Del —
+    leaves exactly the map's rows and index entries at the next Save *)
+Theorem C10_update_del_fixed :
+  forall ops, keys_ok ops = true -> forallb (fun o => negb (is_replace o)) ops = true ->
+    errs_agree ops -> saved_agrees ops.
+Proof. exact update_del_fixed. Qed.
+Print Assumptions C10_update_del_fixed.
 
 Theorem C10_refuted_sep_collision :
   ~ (forall ops, forallb is_add_or_save ops = true -> errs_agree ops -> saved_agrees ops).
@@ -30,8 +34,7 @@ Proof. exact refuted_sep_collision. Qed.
 Print Assumptions C10_refuted_sep_collision.
 
 (** under the guard (per primary key: nothing after the Del of a saved row
-    until the next Save, no Del of a saved row whose pending update changed an
-    indexed field, index values without the separator byte) every call answers
+    until the next Save; index values without the separator byte) every call answers
     like the map and a Save leaves exactly the map's rows and index entries *)
 Theorem C10_table_refines_map_partial :
   forall ops, safe_words ops = true -> errs_agree ops /\ saved_agrees ops.
